@@ -327,11 +327,115 @@ def build16(defs):
     tail = fn_body(src, "process_tail", after="for SymbolConverter")
     one(r"^\s*if\s+self\.pending\s*\{\s*Err\(Error::custom\(\"uneven number of hex digits\"\)\)\s*\}\s*else\s*\{\s*Ok\(None\)\s*\}\s*$", tail, "base16 process_tail")
 
+# ------------------------------------------------ users: nsec3.rs and scan.rs
+
+def build_users(defs):
+    src = strip_comments(read("src/rdata/nsec3.rs"))
+    src = src.split("mod test")[0]
+    maxes = re.findall(r"pub\s+const\s+MAX_LEN\s*:\s*usize\s*=\s*(\d+)\s*;", src)
+    if len(maxes) != 2:
+        raise GenError("nsec3.rs: expected two MAX_LEN constants, found %d" % len(maxes))
+    defs.append(("nsec3_salt_max", "N", "%d%%N" % int(maxes[0])))
+    defs.append(("nsec3_hash_max", "N", "%d%%N" % int(maxes[1])))
+    for ty, tag in (("Nsec3Salt", "salt"), ("OwnerHash", "hash")):
+        m = one(r"pub\s+fn\s+from_octets\(octets:\s*Octs\)\s*->\s*Result<Self,\s*%sError>[^{]*\{\s*if\s+octets\.as_ref\(\)\.len\(\)\s*(>=|>)\s*%s::MAX_LEN\s*\{\s*Err\(" % (ty, ty), src, "%s::from_octets" % ty)
+        defs.append(("nsec3_%s_limit_inclusive" % tag, "bool", "true" if m.group(1) == ">" else "false"))
+    # Nsec3Salt: FromStr and Display
+    fs = fn_body(src, "from_str", after="str::FromStr for Nsec3Salt")
+    m = one(r"^\s*if\s+s\s*==\s*\"(.)\"\s*\{\s*Ok\(unsafe\s*\{\s*Self::from_octets_unchecked\(Octs::Builder::empty\(\)\.freeze\(\)\)\s*\}\)\s*\}\s*else\s*\{\s*"
+            r"base16::decode\(s\)\s*\.map_err\(Nsec3SaltFromStrError::DecodeError\)\s*\.and_then\(\|octets\|\s*\{\s*Self::from_octets\(octets\)\s*\.map_err\(Nsec3SaltFromStrError::Nsec3SaltError\)\s*\}\)\s*\}\s*$",
+            fs, "Nsec3Salt::from_str")
+    defs.append(("nsec3_salt_empty_char", "N", "%d%%N" % ord(m.group(1))))
+    dsp = fn_body(src, "fmt", after="fmt::Display for Nsec3Salt")
+    m = one(r"if\s+s\.is_empty\(\)\s*\{\s*f\.write_char\('(.)'\)\s*\}\s*else\s*\{\s*base16::display\(s,\s*f\)\s*\}\s*$", dsp, "Display for Nsec3Salt")
+    defs.append(("nsec3_salt_empty_display", "N", "%d%%N" % ord(m.group(1))))
+    # Nsec3Salt::scan: '-' handling, delegation to base16, length accounting (fix) or not
+    sc = fn_body(src, "scan", after="impl<Octs> Nsec3Salt<Octs>")
+    m = one(r"if\s+self\.0\.is_none\(\)\s*\{\s*match\s+symbol\s*\{\s*EntrySymbol::Symbol\(symbol\)\s*if\s+symbol\.into_char\(\)\s*==\s*Ok\('(.)'\)\s*=>\s*\{\s*self\.0\s*=\s*Some\(None\);\s*return\s+Ok\(None\);\s*\}\s*_\s*=>\s*\{\s*self\.0\s*=\s*Some\(Some\(base16::SymbolConverter::new\(\)\)\);\s*\}\s*\}\s*\}", sc, "Nsec3Salt::scan first symbol")
+    defs.append(("nsec3_salt_scan_empty_char", "N", "%d%%N" % ord(m.group(1))))
+    one(r"Some\(None\)\s*=>\s*Err\(Error::custom\(\"illegal NSEC3 salt\"\)\)", sc, "Nsec3Salt::scan data after '-'")
+    counted = re.search(r"Some\(Some\(base16\)\)\s*=>\s*\{\s*let\s+res\s*=\s*base16\.process_symbol\(symbol\)\?;\s*if\s+let\s+Some\(data\)\s*=\s*res\s*\{\s*self\.1\s*\+=\s*data\.len\(\);\s*if\s+self\.1\s*>\s*Nsec3Salt::MAX_LEN\s*\{\s*return\s+Err\(", sc)
+    plain = re.search(r"Some\(Some\(base16\)\)\s*=>\s*base16\.process_symbol\(symbol\)\s*,", sc)
+    if bool(counted) == bool(plain):
+        raise GenError("Nsec3Salt::scan: cannot tell whether the converter limits the length")
+    one(r"scanner\s*\.convert_token\(Converter::default\(\)\)\s*\.map\(\|res\|\s*unsafe\s*\{\s*Self::from_octets_unchecked\(res\)\s*\}\)\s*$", sc, "Nsec3Salt::scan result")
+    defs.append(("nsec3_salt_scan_limited", "bool", "true" if counted else "false"))
+    # OwnerHash
+    fs = fn_body(src, "from_str", after="str::FromStr for OwnerHash")
+    unchecked = re.search(r"^\s*base32::decode_hex\(s\)\s*\.map\(\|octets\|\s*unsafe\s*\{\s*Self::from_octets_unchecked\(octets\)\s*\}\)\s*$", fs)
+    checked = re.search(r"^\s*base32::decode_hex\(s\)\.and_then\(\|octets\|\s*\{\s*Self::from_octets\(octets\)\s*\.map_err\(\|_\|\s*base32::DecodeError::ShortBuf\)\s*\}\)\s*$", fs)
+    if bool(unchecked) == bool(checked):
+        raise GenError("OwnerHash::from_str: unrecognised shape")
+    defs.append(("nsec3_hash_from_str_limited", "bool", "true" if checked else "false"))
+    dsp = fn_body(src, "fmt", after="fmt::Display for OwnerHash")
+    one(r"^\s*base32::display_hex\(self\.as_slice\(\),\s*f\)\s*$", dsp, "Display for OwnerHash")
+    sc = fn_body(src, "scan", after="impl<Octs> OwnerHash<Octs>")
+    plain = re.search(r"^\s*scanner\s*\.convert_token\(base32::SymbolConverter::new\(\)\)\s*\.map\(\|octets\|\s*unsafe\s*\{\s*Self::from_octets_unchecked\(octets\)\s*\}\)\s*$", sc)
+    counted = (re.search(r"\*len\s*\+=\s*data\.len\(\);\s*if\s+\*len\s*>\s*OwnerHash::MAX_LEN\s*\{\s*return\s+Err\(", sc)
+               and re.search(r"let\s+data\s*=\s*self\.0\.process_symbol\(symbol\)\?;\s*Self::check\(&mut\s+self\.1,\s*data\)", sc)
+               and re.search(r"process_tail\(&mut\s+self\.0\)\?;\s*Self::check\(&mut\s+self\.1,\s*data\)", sc)
+               and re.search(r"\.convert_token\(Converter\(base32::SymbolConverter::new\(\),\s*0\)\)", sc))
+    if bool(plain) == bool(counted):
+        raise GenError("OwnerHash::scan: unrecognised shape")
+    defs.append(("nsec3_hash_scan_limited", "bool", "true" if counted else "false"))
+
+    # base/scan.rs: Symbol::from_chars, Symbol::into_char, IterScanner entry points
+    sc = strip_comments(read("src/base/scan.rs"))
+    fc = fn_body(sc, "from_chars", after="impl Symbol")
+    one(r"if\s+ch\s*!=\s*'\\\\'\s*\{\s*return\s+Ok\(Some\(Symbol::Char\(ch\)\)\);\s*\}", fc, "Symbol::from_chars plain char")
+    one(r"Some\(ch\)\s+if\s+ch\.is_ascii_digit\(\)\s*=>\s*\{\s*let\s+ch\s*=\s*ch\.to_digit\(10\)\.unwrap\(\)\s*\*\s*100;", fc, "Symbol::from_chars decimal escape")
+    if len(re.findall(r"ch\.to_digit\(10\)\s*\{\s*Some\(ch\)\s*=>\s*ch(?:\s*\*\s*10)?\s*,\s*None\s*=>\s*return\s+Err\(bad_escape\(\)\)", fc)) != 2:
+        raise GenError("Symbol::from_chars: second/third digit handling changed")
+    m = one(r"let\s+res\s*=\s*ch\s*\+\s*ch2\s*\+\s*ch3;\s*if\s+res\s*>\s*%s\s*\{\s*return\s+Err\(bad_escape\(\)\);\s*\}\s*Ok\(Some\(Symbol::DecimalEscape\(res\s+as\s+u8\)\)\)" % NUM, fc, "Symbol::from_chars decimal limit")
+    defs.append(("sym_decimal_max", "N", "%d%%N" % num(m.group(1))))
+    m = one(r"let\s+ch\s*=\s*u8::try_from\(ch\)\.map_err\(\|_\|\s*bad_escape\(\)\)\?;\s*if\s+ch\s*<\s*%s\s*\|\|\s*ch\s*>\s*%s\s*\{\s*Err\(bad_escape\(\)\)\s*\}\s*else\s*\{\s*Ok\(Some\(Symbol::SimpleEscape\(ch\)\)\)" % (NUM, NUM), fc, "Symbol::from_chars simple escape")
+    defs.append(("sym_simple_min", "N", "%d%%N" % num(m.group(1))))
+    defs.append(("sym_simple_max", "N", "%d%%N" % num(m.group(2))))
+    ic = fn_body(sc, "into_char", after="impl Symbol")
+    m = one(r"Symbol::Char\(ch\)\s*=>\s*Ok\(ch\)\s*,\s*Symbol::SimpleEscape\(ch\)\s+if\s+ch\s*>=\s*%s\s*&&\s*ch\s*<\s*%s\s*=>\s*\{\s*Ok\(ch\.into\(\)\)\s*\}\s*_\s*=>\s*Err\(" % (NUM, NUM), ic, "Symbol::into_char")
+    defs.append(("sym_char_min", "N", "%d%%N" % num(m.group(1))))
+    defs.append(("sym_char_lim", "N", "%d%%N" % num(m.group(2))))
+    it = impl_body(sc, r"impl<Iter,\s*Item,\s*Octets>\s*Scanner\s+for\s+IterScanner<Iter,\s*Octets>")
+    flags = []
+    for fn in ("convert_token", "convert_entry"):
+        b = fn_body(it, fn)
+        old = re.search(r"for\s+sym\s+in\s+Symbols::new\(token\.as_ref\(\)\.chars\(\)\)\s*\{\s*if\s+let\s+Some\(data\)\s*=\s*convert\.process_symbol\(sym(?:\.into\(\))?\)\?\s*\{\s*res\.append_slice\(data\)\.map_err\(Into::into\)\?;\s*\}\s*\}", b)
+        new = re.search(r"let\s+mut\s+symbols\s*=\s*Symbols::new\(token\.as_ref\(\)\.chars\(\)\);\s*for\s+sym\s+in\s+&mut\s+symbols\s*\{\s*if\s+let\s+Some\(data\)\s*=\s*convert\.process_symbol\(sym(?:\.into\(\))?\)\?\s*\{\s*res\.append_slice\(data\)\.map_err\(Into::into\)\?;\s*\}\s*\}\s*symbols\.ok\(\)\?;", b)
+        if bool(old) == bool(new):
+            raise GenError("IterScanner::%s: unrecognised symbol loop" % fn)
+        one(r"if\s+let\s+Some\(data\)\s*=\s*convert\.process_tail\(\)\?\s*\{\s*res\.append_slice\(data\)\.map_err\(Into::into\)\?;\s*\}\s*Ok\(<Octets\s+as\s+FromBuilder>::from_builder\(res\)\)\s*$", b, "IterScanner::%s tail" % fn)
+        flags.append(bool(new))
+    if flags[0] != flags[1]:
+        raise GenError("IterScanner: convert_token and convert_entry differ in escape checking")
+    defs.append(("iter_scanner_checks_escapes", "bool", "true" if flags[0] else "false"))
+    one(r"for\s+token\s+in\s+&mut\s+self\.iter\s*\{", fn_body(it, "convert_entry"), "IterScanner::convert_entry token loop")
+
+    # the encode_string / encode_display wrappers are `display`
+    for f, disp, es, ed in (("src/utils/base64.rs", "display", "encode_string", "encode_display"),
+                            ("src/utils/base32.rs", "display_hex", "encode_string_hex", "encode_display_hex"),
+                            ("src/utils/base16.rs", "display", "encode_string", "encode_display")):
+        c = strip_comments(read(f)).split("mod test")[0]
+        one(r"let\s+mut\s+res\s*=\s*String::with_capacity\([^;]*\);\s*%s\(bytes,\s*&mut\s+res\)\.unwrap\(\);\s*res\s*$" % disp, fn_body(c, es), "%s %s" % (f, es))
+        one(r"fn\s+fmt\(&self,\s*f:\s*&mut\s+fmt::Formatter<'_>\)\s*->\s*fmt::Result\s*\{\s*%s\(self\.0,\s*f\)\s*\}\s*\}\s*Display\(octets\.as_ref\(\)\)\s*$" % disp, fn_body(c, ed), "%s %s" % (f, ed))
+    defs.append(("encode_wrappers_are_display", "bool", "true"))
+    # bounded builders: how a failing append_slice is handled
+    c64 = strip_comments(read("src/utils/base64.rs")).split("mod test")[0]
+    imp = impl_body(c64, r"impl<Builder:\s*OctetsBuilder>\s*Decoder<Builder>")
+    pb = fn_body(imp, "push_char") if re.search(r"\bfn\s+push_char\b", imp) else fn_body(imp, "push")
+    if len(re.findall(r"\.append_slice\(\s*&\[.*?\]\s*\)\s*\.map_err\(Into::into\)\?;", pb, re.S)) != 3:
+        raise GenError("base64 push: append_slice(..).map_err(Into::into)? expected three times")
+    for f in ("src/utils/base32.rs", "src/utils/base16.rs"):
+        c = strip_comments(read(f)).split("mod test")[0]
+        imp = impl_body(c, r"impl<Builder:\s*OctetsBuilder>\s*Decoder<Builder>")
+        one(r"^\s*let\s+target\s*=\s*match\s+self\.target\.as_mut\(\)\s*\{\s*Ok\(target\)\s*=>\s*target,\s*Err\(_\)\s*=>\s*return,\s*\};\s*if\s+let\s+Err\(err\)\s*=\s*target\.append_slice\(&\[value\]\)\s*\{\s*self\.target\s*=\s*Err\(err\.into\(\)\.into\(\)\);\s*\}\s*$", fn_body(imp, "append"), "%s Decoder::append" % f)
+    defs.append(("shortbuf_paths_as_modelled", "bool", "true"))
+
 def build():
     defs = []
     build64(defs)
     build32(defs)
     build16(defs)
+    build_users(defs)
     # the decode convenience functions: push each char with `?`, then finalize
     for f, fn in (("src/utils/base64.rs", "decode"), ("src/utils/base32.rs", "decode_hex"), ("src/utils/base16.rs", "decode")):
         b = fn_body(strip_comments(read(f)), fn)
@@ -340,4 +444,4 @@ def build():
     return defs
 
 if __name__ == "__main__":
-    main("C18", "/repo/src/utils/base64.rs, base32.rs, base16.rs", build)
+    main("C18", "/repo/src/utils/base64.rs, base32.rs, base16.rs, rdata/nsec3.rs, base/scan.rs", build)
